@@ -571,12 +571,21 @@ def check_foreign_tbl(ctx, text):
 
 # ------------------------------------------------------------------------------------------ subsetting
 
-def check_subset(ctx, o, sel, kind):
-    """sel: list of ints (kind='int') or list of bools (kind='bool')"""
+def check_subset(ctx, o, sel, kind, container="array"):
+    """sel: list of ints (kind='int') or list of bools (kind='bool'); container: how the selection is handed over
+    (numpy array, python list, python tuple — all are legal selections)"""
     n = o["t"].shape[0]
-    inp = {"family": "subset", "orient": orient_json(o), "kind": kind, "sel": [bool(x) if kind == "bool" else int(x) for x in sel]}
+    if container != "array" and len(sel) == 0:
+        container = "array"      # an empty python list carries no dtype (numpy makes it float): not a typed selection
+    inp = {"family": "subset", "orient": orient_json(o), "kind": kind, "container": container,
+           "sel": [bool(x) if kind == "bool" else int(x) for x in sel]}
     obj = make(o)
     idx = np.array(sel, dtype=bool if kind == "bool" else np.int64)
+    if container == "list":
+        idx = [bool(x) if kind == "bool" else int(x) for x in sel]
+    elif container == "tuple":
+        idx = tuple(bool(x) if kind == "bool" else int(x) for x in sel)
+    ctx.count("subset:container=" + container)
     sub, err = _quiet(obj.__getitem__, idx)
     if kind == "int":
         m = ctx.driver.call("c11.takeIdx", n=n, idx=[int(x) for x in sel])
@@ -802,7 +811,7 @@ def replay_input(ctx, inp):
     if fam == "windows":
         return check_windows(ctx, orient_from_json(inp["orient"]), inp["target"], inp["box"], "replay")
     if fam == "subset":
-        return check_subset(ctx, orient_from_json(inp["orient"]), inp["sel"], inp["kind"])
+        return check_subset(ctx, orient_from_json(inp["orient"]), inp["sel"], inp["kind"], inp.get("container", "array"))
     if fam == "text-foreign":
         return check_foreign_text(ctx, inp["text"], "replay")
     if fam == "star-foreign":
@@ -884,11 +893,11 @@ def stream(ctx, rng, scale=1.0, wide=False):
             sel = [int(x) for x in rng.integers(lo, max(hi, lo + 1), size=k)] if n or lo < hi else []
             if n == 0:
                 sel = [] if rng.random() < 0.7 else [0]
-            check_subset(ctx, o, sel, "int")
+            check_subset(ctx, o, sel, "int", container=str(rng.choice(["array", "array", "list", "tuple"])))
         else:
             m = n if rng.random() < 0.9 else n + int(rng.choice([-1, 1]))
             sel = [bool(x) for x in rng.random(max(m, 0)) < rng.choice([0.0, 0.3, 0.7, 1.0])]
-            check_subset(ctx, o, sel, "bool")
+            check_subset(ctx, o, sel, "bool", container=str(rng.choice(["array", "array", "list", "tuple"])))
     # windows
     for _ in range(nb(1000, 8000)):
         check_windows(ctx, *gen_window_case(rng, ctx, wide))
